@@ -23,7 +23,7 @@ from . import tables as T
 ID = 'C16'
 RULE = ('worlds of 2-3 tables over one content from tables.rand_spec (dims 1..4, five value kinds, metadata kinds, six id '
         'alphabets), each built by a different route {16 constructor input forms incl. caller CSR/CSC with stored zeros and '
-        'unsorted indices, stored zeros in sparse rows / coo / lil / dok / row dicts / dict, sort_order then inverse, filter keeping everything (ids / predicate), subsample at full depth, '
+        'unsorted indices, stored zeros in sparse rows / coo / lil / dok / row dicts / dict, float32 / int16 inputs, sort_order then inverse, filter keeping everything (ids / predicate), subsample at full depth, '
         'transpose twice, copy, column/row access, nnz, and (30%) a CSR/CSC matrix with stored zeros / unsorted indices put in place directly}; in half of the worlds one table differs in exactly one value (also by 1e-9..1e-12 or one ulp; 10% chains x,y,z with steps d,2d) / id / '
         'order of two ids / metadata entry (changed value, category on one side only, category missing, entry {} on one side) / '
         'presence of metadata / type; programs of 3-10 steps over {nnz, row/column '
@@ -45,7 +45,8 @@ ASSUMPTIONS = ['NaN-free values (property domain); metadata values never differ 
 
 CTOR_FORMS = ['dense', 'dense_int', 'lists', 'triples', 'dict', 'rowarrays', 'rowdicts', 'sparserows',
               'csr', 'csc', 'coo', 'lil', 'dok', 'bsr', 'csr_zero', 'csr_unsorted', 'csc_zero_unsorted',
-              'sparserows_zero', 'coo_zero', 'lil_zero', 'dok_zero', 'rowdicts_zero', 'dict_zero']
+              'sparserows_zero', 'coo_zero', 'lil_zero', 'dok_zero', 'rowdicts_zero', 'dict_zero',
+              'csr_f32', 'csc_f32', 'coo_i16', 'dense_f32', 'sparserows_f32']
 HISTORIES = ['sort_inverse', 'filter_ids', 'filter_pred', 'transpose2', 'copy', 'subsample_full',
              'colaccess', 'rowaccess', 'nnz', 'eq_self']
 DESC = {'Tables appear equal': 0, 'Tables are not the same type': 1, 'Observation IDs are not the same': 2,
@@ -133,6 +134,16 @@ def ctor_input(form, M):
                 else:
                     dict.__setitem__(m._dict if hasattr(m, '_dict') else m, (i, j), 0.0)
         return m, {}
+    if form in ('csr_f32', 'csc_f32', 'coo_i16', 'dense_f32', 'sparserows_f32'):
+        # narrower dtypes, where they hold the values exactly (else the float64 form)
+        dt = np.dtype('int16' if form == 'coo_i16' else 'float32')
+        with np.errstate(over='ignore', invalid='ignore'):
+            N = M.astype(dt) if np.all(np.abs(M) < 3e4) and np.array_equal(M.astype(dt).astype(float), M) else M
+        if form == 'dense_f32':
+            return N.copy(), {}
+        if form == 'sparserows_f32':
+            return [csr_matrix(N[i:i + 1]) for i in range(r)], {}
+        return {'csr_f32': csr_matrix, 'csc_f32': csc_matrix, 'coo_i16': coo_matrix}[form](N), {}
     if form == 'csr_zero':
         return _raw_compressed(M, 'csr', True, False), {}
     if form == 'csr_unsorted':
